@@ -47,6 +47,10 @@ type pbLegacyVer struct {
 
 func (m *pbLegacyVer) GetVersion() string { return m.Ver }
 
+// Size means something else for this type (say, a number of rows): nothing ties a method called Size to the length of
+// what Marshal returns.
+func (m *pbLegacyVer) Size() int { return 7 }
+
 // pbBytesVer is a real protobuf message embedded in a versioned struct.
 type pbBytesVer struct {
 	*wrappers.BytesValue
